@@ -1,5 +1,5 @@
 """C06 -- SYN policy mimics Linux; SYN-ACK acks seq+1 with a deterministic cookie."""
-import net
+import net, gens
 from runner import Script, Cfg
 
 ID = "C06"
@@ -53,6 +53,7 @@ def generate(tier, rng):
         a = rng.choice([V4, V6])
         fr.append(net.frame_tcp(a[0], a[1], rng.randrange(65536), rng.randrange(65536), rng.getrandbits(32), 0, 0x02))
     yield Script(cfg, fr + fr[:20], "random-tuples+retransmit")
+    yield Script(Cfg(key=(5, 6)), gens.hostile_requests(rng), "hostile-requests")
 
 
 def is_syn(frame):
